@@ -200,7 +200,12 @@ impl TimeTrigger {
         let current = crate::verif::now_override().unwrap_or(current);
         let next_time = TimeTrigger::get_next_time(current, config.interval, config.modulate);
         let next_roll_time = if config.max_random_delay > 0 {
-            let random_delay = rand::thread_rng().gen_range(0..config.max_random_delay);
+            // A bound that the date arithmetic cannot represent used to panic here
+            // (`Duration::seconds out of bounds`, `DateTime + TimeDelta overflowed`).
+            // Like the interval itself, the delay is limited to 1000 years.
+            const MAX_RANDOM_DELAY: u64 = 31_557_600_000;
+            let bound = config.max_random_delay.min(MAX_RANDOM_DELAY);
+            let random_delay = rand::thread_rng().gen_range(0..bound);
             next_time + Duration::seconds(random_delay as i64)
         } else {
             next_time
